@@ -26,6 +26,20 @@ CHECKS = {
          "fft.Transform against closed forms (every impulse position and tone frequency for N<=2^8 quick / 2^10 thorough, seeded above), an independent FFT on all bins and direct summation; Inverse round trip; constructor contract for all n<=4096, seeded n, limits; wrong-length slices must be refused and left untouched. N up to 2^16 quick, 2^20 thorough.", REF, "4/C19"),
 }
 
+WF = "Trusted base: Go runtime (scheduler, race detector, deadlock detector), the harness's recording reader and registry wrappers (internal/mon), the reference decision rule (internal/oracle). randomness.TestMethodArr is the seam for runner stubs; no hook is compiled into /repo. Schedules covered are those produced by the stated GOMAXPROCS/taskset/delay plans; the evidence counts distinct ones."
+CHECKS.update({
+ "C07": ("exploration", "runtime monitor: recorded sample/runner history + independent decision-rule model",
+         "The three sequential workflows run on streams that encode a chosen s x items result matrix (stub runners at the registry seam) covering every pass count for every item and the uniformity boundary on both sides, plus real-runner runs; verdict, error/verdict consistency, named item, sample splitting (history checker) and tail independence are decided per run.", WF, "4/C07"),
+ "C08": ("exploration", "runtime monitor: differential history check under schedule perturbation + Go race detector",
+         "Each Fast workflow is run repeatedly on verdict-sensitive streams under seeded delays in Read/runners, GOMAXPROCS 1..16 and 1/2/3/16 workers (taskset) and compared with the sequential run on the same bytes; every judged sample must be one stream chunk judged once by the expected items; a share of the runs is executed in a -race build and DATA RACE reports are violations.", WF, "4/C08"),
+ "C09": ("fault_enumeration", "runtime monitor: fault injection at the source + Go deadlock detector + goroutine census",
+         "Source failures are enumerated over offsets (0,1,B+-1, sample boundaries +-1, last sample, seeded) x 4 failure kinds x sticky/transient x 7 workflow functions; each run must return (hang decided by the runtime's deadlock detector in a plain child), false, non-nil error, no blocked goroutine left, bounded events after the fault; a share re-runs under -race.", WF, "4/C09"),
+ "C10": ("exploration", "runtime monitor: exactly-once / no-stale sample history checker over read-size plans",
+         "Each workflow is run on the same bytes under whole, 1-byte, prime, random and boundary-straddling read plans; the history checker demands that every judged sample is exactly one chunk of consecutive fresh stream bytes, judged once; verdict and named item must agree across plans; Fast variants also under delay plans and -race.", WF, "4/C10"),
+ "C14": ("exploration", "runtime monitor: end-to-end verdict observation on degenerate sources (child process per batch)",
+         "All 256 stuck-at streams and 200+ short-cycle streams (seeded and adversarial period contents) through the real periodic workflows, a rotating subset (all in thorough) through the 10^6-bit workflows, SingleDetect on all-zero/all-one at every length 16..4096: must return, reject, and carry an error; panics in worker goroutines are attributed by the child-process protocol.", WF, "4/C14"),
+})
+
 PENDING = {
 }
 
